@@ -175,7 +175,12 @@ def val_equal(a, b):
             return False
     if isinstance(a, sympy.Basic) or isinstance(b, sympy.Basic):
         try:
-            return _sym_zero(sympy.sympify(a) - sympy.sympify(b))
+            sa, sb = sympy.sympify(a), sympy.sympify(b)
+            if sa == sb:
+                return True        # structurally equal (this is also how nan, oo and zoo compare equal to themselves)
+            if sa.has(sympy.nan) or sb.has(sympy.nan):
+                return bool(sa.has(sympy.nan) and sb.has(sympy.nan))
+            return _sym_zero(sa - sb)
         except Exception:
             return False
     if isinstance(a, (list, tuple)) or isinstance(b, (list, tuple)):
